@@ -159,8 +159,9 @@ Theorem C01_refusal : forall (val : Type) (M : Mon), MonLaws M ->
   strict = true \/ ~ main_positional_with_keywords val M o args kw ->
   obj_logd vsplit strict o args kw = Some v ->
   match o with
-  | OJ FStacked J =>      (* the stacked object: exactly one positional vector, no keywords *)
-      exists x, args = [x] /\ kw = [] /\ jlogd_kw J (combine (jparams J) (vsplit (jdims J) x)) = Some v
+  | OJ FStacked J =>      (* the stacked object: exactly one vector, positionally or as `stacked_input=` *)
+      exists x, ((args = [x] /\ kw = []) \/ (args = [] /\ kw = [(stacked_key, x)])) /\
+                jlogd_kw J (combine (jparams J) (vsplit (jdims J) x)) = Some v
   | _ =>
       length args <= length (obj_params o) /\
       (forall k, In k (dom kw) -> In k (obj_params o) /\ ~ In k (firstn (length args) (obj_params o))) /\
@@ -181,7 +182,7 @@ Print Assumptions C01_refusal.
 (* REPAIRED DEFECT (Distribution.logd|main-positional:other-keywords-ignored, fix 5b3a052): in the code before the repair
    (strict = false) the guard of C01_refusal is needed: x | z evaluated as logd(zval, xval, foo=..)
    (unknown keyword 7) and logd(zval, xval, x=..) (own name 0 given twice) return numbers *)
-Definition C01_w_dist : dist Z ZM := @mkDist Z ZM 0 1 [1] [] 0%Z (fun vs => fold_right Z.add 0%Z vs).
+Definition C01_w_dist : dist Z ZM := @mkDist Z ZM 0 1 [1] [] [] 0%Z (fun vs => fold_right Z.add 0%Z vs).
 Theorem C01_refusal_refuted :
   exists (o : obj Z ZM) (args : list Z) (kw1 kw2 : list (var * Z)) v1 v2,
     wf_obj Z ZM o /\ main_positional_with_keywords Z ZM o args kw1 /\
@@ -226,8 +227,8 @@ Print Assumptions C01_bare_likelihood_unreachable.
    distribution._constant to distribution(...).logd(data), which already contains it, so a
    conditional distribution with a hand-set _constant = 5 turned into a likelihood counts it twice
    (not reachable through the public API; recorded so that the guard is not mistaken for slack) *)
-Definition C01_c_dist : dist Z ZM := @mkDist Z ZM 0 1 [1] [] 5%Z (fun vs => fold_right Z.add 0%Z vs).
-Definition C01_c_prior : dist Z ZM := @mkDist Z ZM 1 1 [] [] 0%Z (fun vs => fold_right Z.add 0%Z vs).
+Definition C01_c_dist : dist Z ZM := @mkDist Z ZM 0 1 [1] [] [] 5%Z (fun vs => fold_right Z.add 0%Z vs).
+Definition C01_c_prior : dist Z ZM := @mkDist Z ZM 1 1 [] [] [] 0%Z (fun vs => fold_right Z.add 0%Z vs).
 Theorem C01_constant_guard_tight :
   let J := [D C01_c_dist; D C01_c_prior] in
   jlogd_kw J [(0, 2%Z); (1, 3%Z)] = Some 13%Z /\
@@ -238,10 +239,10 @@ Print Assumptions C01_constant_guard_tight.
 (* order of the conditioning variables (positional passing depends on it): None attributes first,
    then callable arguments by first appearance; conditioning removes exactly the given names and
    keeps the order of the rest *)
-Theorem C01_conditioning_variables : forall (val : Type) (M : Mon) name dim (ss : list slot) c f (kw : list (var * val)),
+Theorem C01_conditioning_variables : forall (val : Type) (M : Mon) name dim (ss : list slot) attrs c f (kw : list (var * val)),
   cond_vars (map (bind_slot (dom kw)) ss) = filter (fun v => negb (mem v (dom kw))) (cond_vars ss) /\
-  dfree (dist_bind (@mk_dist val M name dim ss c f) kw) = cond_vars (map (bind_slot (dom kw)) ss).
-Proof. intros val M name dim ss c f kw. split; [apply cond_vars_bind | apply dfree_mk_dist]. Qed.
+  dfree (dist_bind (@mk_dist val M name dim ss attrs c f) kw) = cond_vars (map (bind_slot (dom kw)) ss).
+Proof. intros val M name dim ss attrs c f kw. split; [apply cond_vars_bind | apply dfree_mk_dist]. Qed.
 Print Assumptions C01_conditioning_variables.
 
 (* non-vacuity: the 4-variable hierarchical graph of the class docstring
@@ -250,8 +251,8 @@ Print Assumptions C01_conditioning_variables.
    missing variable is refused *)
 Definition C01_ex_f : list Z -> Z := fun vs => fold_right (fun a b => (a + 2 * b)%Z) 0%Z vs.
 Definition C01_ex_J : list (dens Z ZM) :=
-  [D (@mk_dist Z ZM 0 1 [SFixed] 0%Z C01_ex_f); D (@mk_dist Z ZM 1 1 [SFixed] 0%Z C01_ex_f);
-   D (@mk_dist Z ZM 2 1 [SFixed; SFn [0]] 0%Z C01_ex_f); D (@mk_dist Z ZM 3 1 [SFn [2]; SFn [1]] 0%Z C01_ex_f)].
+  [D (@mk_dist Z ZM 0 1 [SFixed] [] 0%Z C01_ex_f); D (@mk_dist Z ZM 1 1 [SFixed] [] 0%Z C01_ex_f);
+   D (@mk_dist Z ZM 2 1 [SFixed; SFn [0]] [] 0%Z C01_ex_f); D (@mk_dist Z ZM 3 1 [SFn [2]; SFn [1]] [] 0%Z C01_ex_f)].
 Example C01_example :
   wf Z ZM C01_ex_J /\ MonLaws ZM /\
   jlogd_kw C01_ex_J [(0%nat, 1%Z); (1%nat, 2%Z); (2%nat, 3%Z); (3%nat, 4%Z)] = Some 33%Z /\
@@ -361,3 +362,31 @@ Proof.
 Qed.
 Print Assumptions C01_stacked_object.
 
+
+(* re-assembly: a reduced (non-conditional) Distribution -- with whatever constants the reduction
+   folded into it -- put into a new JointDistribution is a well-formed joint that evaluates like the
+   distribution; so by C01_step / C01_sequence every further conditioning of the new joint still
+   equals the ORIGINAL joint at the complete assignment.  Any well-formed list of single densities
+   can be re-assembled. *)
+Theorem C01_reassembly : forall (val : Type) (M : Mon), MonLaws M ->
+  (forall (d : dist val M), wf_dens val M (D d) -> dfree d = [] ->
+     obj_join [Some (OD (D d))] = Some (OJ FJoint [D d]) /\ wf val M [D d] /\
+     forall a : list (var * val), jlogd_kw [D d] a = dens_logd_kw (D d) a) /\
+  (forall (fs : list (dens val M)), wf val M fs ->
+     obj_join (map (fun f => Some (OD f)) fs) = Some (OJ FJoint fs)).
+Proof.
+  intros val M ML. split; [intros d; exact (join_single val M ML d) | intros fs; exact (join_wf val M fs)].
+Qed.
+Print Assumptions C01_reassembly.
+
+(* a Posterior built directly by the user from a likelihood and its prior is the object the joint's
+   reduction builds from the same two factors; hence everything proved for reduced Posteriors
+   (C01_sequence, C01_posterior_keyword with name=prior.name, C01_problem_views) applies to it *)
+Theorem C01_user_posterior : forall (val : Type) (M : Mon), MonLaws M ->
+  forall (ld pr : dist val M) (data : val),
+  wf val M [L ld data; D pr] ->
+  obj_mkpost (OD (L ld data)) (OD (D pr)) = Some (OP ld data pr (mzero M)) /\
+  reduce FJoint [L ld data; D pr] = Some (OP ld data pr (mzero M)) /\
+  wf_obj val M (OP ld data pr (mzero M)).
+Proof. intros val M ML ld pr data. exact (mkpost_reduce val M ML ld pr data). Qed.
+Print Assumptions C01_user_posterior.
